@@ -249,8 +249,9 @@ def into_iter(ex, v):
         if isinstance(d, (VecV, SliceRef)) or (isinstance(d, Agg) and d.name == '[]'):
             items, s, e = ex.as_items(d); return it_cells(items[s:e], True)
         if isinstance(d, MapV):
-            if d.kind == 'set': return Iter('pylist', vals=[Ref(k) for k, c in d.entries], i=0)
-            return Iter('pylist', vals=[tup(Ref(k), Ref(c)) for k, c in d.entries], i=0)
+            from models_coll import hash_order
+            if d.kind == 'set': return Iter('pylist', vals=[Ref(k) for k, c in hash_order(ex, d)], i=0)
+            return Iter('pylist', vals=[tup(Ref(k), Ref(c)) for k, c in hash_order(ex, d)], i=0)
         if isinstance(d, Agg) and d.name == 'Option':
             return Iter('pylist', vals=[Ref(d.fields[0])] if d.variant == 1 else [], i=0)
         if isinstance(d, Iter): return d
@@ -266,8 +267,9 @@ def into_iter(ex, v):
     if isinstance(v, Agg) and v.name == 'Option':
         return Iter('pylist', vals=[v.fields[0].v] if v.variant == 1 else [], i=0)
     if isinstance(v, MapV):
-        if v.kind == 'set': return Iter('pylist', vals=[k.v for k, c in v.entries], i=0)
-        return Iter('pylist', vals=[tup(k.v, c.v) for k, c in v.entries], i=0)
+        from models_coll import hash_order
+        if v.kind == 'set': return Iter('pylist', vals=[k.v for k, c in hash_order(ex, v)], i=0)
+        return Iter('pylist', vals=[tup(k.v, c.v) for k, c in hash_order(ex, v)], i=0)
     raise Unsupported(f'into_iter {v!r}')
 
 
